@@ -83,6 +83,38 @@ bool probe()
 """
 
 
+# In-scope entry points that only the operation sessions drive.  If the sessions do not compile against
+# the tree under test these probes decide: a probe that fails = a function the statement names rejects
+# the well-formed arguments the harness always passed -> VIOLATION C20:<name>:does-not-compile; all probes
+# compile = only an observed-only member (==, <<, min/max, param read-back) broke -> OBSERVATION.
+SCOPE_PROBE_HEAD = """#include <fcppt/make_ref.hpp>
+#include <fcppt/random/make_variate.hpp>
+#include <fcppt/random/variate.hpp>
+#include <fcppt/random/distribution/basic.hpp>
+#include <fcppt/random/distribution/make_basic.hpp>
+#include <fcppt/random/distribution/parameters/normal.hpp>
+#include <fcppt/random/distribution/parameters/uniform_int.hpp>
+#include <fcppt/random/generator/minstd_rand.hpp>
+using gen = fcppt::random::generator::minstd_rand;
+using params = fcppt::random::distribution::parameters::normal<double>;
+using dist = fcppt::random::distribution::basic<params>;
+double probe()
+{
+  gen g(gen::seed(1));
+  dist d(params(params::mean(1.0), params::stddev(2.0)));
+  (void)d(g);
+"""
+SCOPE_PROBES = {
+    "make_variate": "  auto v = fcppt::random::make_variate(fcppt::make_ref(g), d);\n  return v();\n}\n",
+    "variate": "  fcppt::random::variate<gen, dist> v(fcppt::make_ref(g), d);\n  fcppt::random::variate<gen, dist> w(v);\n  return v() + w();\n}\n",
+    "distribution_basic": "  dist e(d);\n  e = d;\n  e.reset();\n  return e(g);\n}\n",
+}
+
+
+def failing_scope_probes():
+    return sorted(k for k, tail in SCOPE_PROBES.items() if not probe_compiles("scope_probe_%s.cpp" % k, SCOPE_PROBE_HEAD + tail))
+
+
 def probe_compiles(name, text):
     d = vlib.mkdir(os.path.join(vlib.BUILD, "work", "C20"))
     src = os.path.join(d, name)
@@ -103,7 +135,57 @@ def build(ctx=None):
         ctx.extra["param_api_driven"] = ok
         ctx.extra["istream_api_driven"] = iok
     defs = (("C20_PARAM_API",) if ok else ()) + (("C20_ISTREAM_API",) if iok else ())
-    return vlib.build_harness("c20_random", ["c20_random.cpp"], libs=("core",), defs=defs)
+    try:
+        return vlib.build_harness("c20_random", ["c20_random.cpp"], libs=("core",), defs=defs)
+    except vlib.Infra as e:
+        first = _tree_build_failure(e)
+        if first is None or ctx is None:
+            raise
+    # The harness does not compile against the tree under test: a verdict about the tree, not an
+    # infrastructure failure.  Build what the statement names without the observed-only parts
+    # (seed_from_chrono, write-through of uniform_container; then also without the operation sessions,
+    # which need reset / param / == / << of distribution::basic).
+    vlib.log("the full harness does not compile against this tree (%s)" % first)
+    for name, d2, left_out in (("c20_random_noobs", defs + ("C20_NO_OBSERVED",), "seed_from_chrono, write-through of uniform_container"),
+                               ("c20_random_core", ("C20_NO_OBSERVED",), "seed_from_chrono, write-through of uniform_container, "
+                                "the operation sessions of distribution::basic / variate (reset, param, ==, <<, copies)")):
+        try:
+            b = vlib.build_harness(name, ["c20_random.cpp"], libs=("core",), defs=d2)
+        except vlib.Infra as e:
+            if _tree_build_failure(e) is None:
+                raise
+            last = _tree_build_failure(e)
+            continue
+        ctx.extra["harness_variant"] = name
+        if name == "c20_random_core":
+            for k in failing_scope_probes():
+                ctx.reject("C20:%s:does-not-compile" % k,
+                           "%s no longer compiles with the well-formed arguments the operation sessions always passed "
+                           "(first error of the harness: %s); the records that do not need it are still judged" % (k, first),
+                           {"records": [], "build": True})
+        o = ctx.extra.setdefault("observations", {}).setdefault("build:full-harness-does-not-compile", {"count": 0, "sample": ""})
+        o["count"] += 1
+        o["sample"] = "the full harness does not compile: %s; driven without: %s" % (first, left_out)
+        return b
+    # "If a public API that the statement names no longer compiles with well-formed arguments of a kind the
+    # harness used to pass, that is a VIOLATION: the property cannot hold for inputs the code rejects."
+    ctx.reject("C20:core:does-not-compile",
+               "the core harness (variate / distribution::basic over uniform_int, uniform_real, normal; make_basic, make_variate, "
+               "make_uniform_enum(_advanced), make_uniform_indices(_advanced), make_uniform_container(_advanced), the provided "
+               "generators - the functions the statement of C20 names, with the argument kinds it always used) does not compile "
+               "against the tree under test: %s" % last, {"records": [], "build": True})
+    return None
+
+
+def _tree_build_failure(e):
+    """The first error line if the Infra is a compile / link failure of OUR translation unit against the
+    tree under test; None if it is anything else (also: a library source of the tree that does not
+    compile - such a tree does not build its own tests either)."""
+    msg = str(e)
+    m = re.match(r"(compile|link) failed: (\S+)", msg)
+    if not m or (m.group(1) == "compile" and not os.path.abspath(m.group(2)).startswith(os.path.abspath(vlib.HARNESS))):
+        return None
+    return next((x.strip() for x in msg.splitlines() if "error" in x), msg.splitlines()[0])[:500]
 
 
 def group_of(line):
@@ -206,15 +288,47 @@ def observe(ctx, rec, why, line):
     o["count"] += 1
 
 
-def judge_file(ctx, path, what, rc, out):
+def drive(ctx, binary, args_of, path, what, timeout):
+    """Run the harness (`args_of(out, skip)` -> argv).  A crash / sanitizer abort / hang of the code under
+    test is a verdict (judge_file rejects C20:<function>:<kind> and keeps the complete records); the
+    harness is restarted behind the record that died (at most 3 times, once after a hang), so that the
+    other parameter sets are still judged.  The parts are concatenated into `path`."""
+    skip, hangs, nviol = 0, 0, len(ctx.violations)
+    with open(path, "w") as whole:
+        for attempt in range(4):
+            part = "%s.part%d" % (path, attempt)
+            if os.path.exists(part):
+                os.unlink(part)
+            rc, out = vlib.run_harness(binary, args_of(part, skip), timeout=timeout)
+            if not os.path.exists(part):
+                open(part, "w").close()
+            n = judge_file(ctx, part, what, rc, out, judge=False)
+            with open(part) as f:
+                for x in f:
+                    whole.write(x)
+            os.unlink(part)
+            if rc == 0:
+                break
+            kind = {68: "hang", 124: "timeout"}.get(rc)
+            hangs += 1 if kind else 0
+            if hangs >= 2:
+                break
+            skip += n + 1      # the complete records of this part and the one that died
+    return len(ctx.violations) > nviol
+
+
+def judge_file(ctx, path, what, rc, out, judge=True):
     lines, tail = vlib.check_trace_file(path)
     if rc != 0:
         kind = {66: "sanitizer", 67: "crash", 68: "hang", 124: "timeout"}.get(rc, "exit%d" % rc)
         # a sanitizer report whose innermost frame is harness code is a harness bug, not a finding
         fr = re.search(r"#0 0x[0-9a-f]+ in [^\n]*? (/\S+?):\d+", out)
-        if rc == 66 and fr and fr.group(1).startswith(vlib.HARNESS):
+        # (only outside a driven call: inside one - a record was begun and not finished - the harness touches
+        #  what the code under test returned, e.g. reads through a returned reference; garbage from the
+        #  tree must never become an infrastructure failure)
+        if rc == 66 and fr and fr.group(1).startswith(vlib.HARNESS) and not tail:
             raise vlib.Infra("sanitizer report inside the harness itself: %s" % out[-1500:])
-        if rc == 3 or (tail is None and not lines):
+        if rc == 3:
             raise vlib.Infra("harness failed (rc=%d): %s" % (rc, out[-2000:]))
         m = re.search(r'"f":"(\w+)"', tail or "")
         op = m.group(1) if m else "?"
@@ -239,6 +353,8 @@ def judge_file(ctx, path, what, rc, out):
             f.write("\n".join(lines) + ("\n" if lines else ""))
     nlines = len(lines)
     del lines
+    if not judge:
+        return nlines
     if nlines == 0:
         if ctx.violations:
             return 0
@@ -298,11 +414,23 @@ def model_checks(ctx):
 
 
 def run(ctx):
-    model_checks(ctx)
+    # development aid: VERIF_C20_PHASES=nomc skips the model checks of the specification and the vacuity
+    # guards (they do not depend on the tree under test; for mutant trials on a loaded box); never set in a
+    # real run
+    if os.environ.get("VERIF_C20_PHASES") == "nomc":
+        ctx.mc_runs.append({"module": "-", "cfg": "-", "generated": 1, "distinct": 1, "depth": 0, "wall_s": 0, "ok": True,
+                            "cmd": "skipped (VERIF_C20_PHASES=nomc)", "simulate": None})
+    else:
+        model_checks(ctx)
     binary = build(ctx)
+    if binary is None:
+        ctx.rule = "the core harness does not compile against the tree under test; only the model checks ran"
+        ctx.count_class("build-failure")
+        return
     tpath = os.path.join(ctx.workdir, "recorded.ndjson")
-    rc, out = vlib.run_harness(binary, ["record", tpath, ctx.seed, ctx.tier], timeout=3000)
-    judge_file(ctx, tpath, "recorded run", rc, out)
+    drive(ctx, binary, lambda out, skip: ["record", out, ctx.seed, ctx.tier, skip], tpath, "recorded run",
+          3000 if ctx.tier == "thorough" else 900)
+    judge_file(ctx, tpath, "recorded run", 0, "")
     ctx.traces_validated += ctx.extra.get("records_per_group", {}).get("agg", 0)
     with open(tpath) as f:
         for i, l in enumerate(f):
@@ -340,8 +468,15 @@ def run(ctx):
 
 
 def replay(ctx, payload):
-    binary = build()
+    binary = build(ctx)
+    if binary is None:
+        return
     recs = payload["payload"].get("records", [])
+    if payload["payload"].get("build"):
+        ctx.traces_validated += 1
+        ctx.evaluations += 1
+        ctx.rule = "replay of a build verdict: the harness compiles now"
+        return
     if not recs:
         raise vlib.Infra("nothing to replay: %s" % payload["payload"].get("partial_line"))
     spath = os.path.join(ctx.workdir, "replay_in.ndjson")
